@@ -32,11 +32,12 @@ func init() {
 		Level: "exploration",
 		Rule: "cases = generated frame scripts (1-6 messages x 1-5 fragments incl. empty ones, compressed per message with sync-flush or BFINAL=1 endings and stored blocks, pings/pongs/Close before, between and inside messages, 0-2 injected violations from the catalogue), mutated scripts and random bytes, " +
 			"each delivered under a transport chunking (whole / per frame / 1 byte / random / every single split offset for short scripts / everything sent before the handshake completes, so that it waits in the transport or in the hijacked connection's read buffer) to a library endpoint of either role and compared with the streaming reference endpoint on the same bytes. " +
+			"Second family: the application calls Reader again while the FINAL frame of the current message (a single frame, or the last fragment) is only partly read, and the unread payload shows well-formed frames (a message, a Ping, fragments, a Close) on the wire: the call must be refused or skip to the peer's next message; a delivered message that the peer never sent, a Pong or a Close echo for frames that exist only inside the payload are violations. " +
 			"distinct key = (role, agreement, how the stream ends per the reference [violation class | close | eof position], transport chunking, reader mode, script features)",
 		Gen:         c03Gen,
 		CaseTimeout: 120 * time.Second,
 		Require: func(tier string) map[string]int64 {
-			return map[string]int64{"messages_compared": 3000, "violations_injected_and_rejected": 500, "close_frames_received": 200, "pongs_compared": 300, "bfinal_messages": 50, "connections_with_more_than_400_messages_delivered": 10}
+			return map[string]int64{"messages_compared": 3000, "violations_injected_and_rejected": 500, "close_frames_received": 200, "pongs_compared": 300, "bfinal_messages": 50, "connections_with_more_than_400_messages_delivered": 10, "second_reader_calls_on_half_read_final_frames": 200}
 		},
 		Assumptions: []string{
 			"wire.RefEndpoint (written from RFC 6455 5.2-5.5/7.4 and RFC 7692 6-7) is the specification of a receiver",
@@ -118,6 +119,7 @@ func c03Gen(tier string, seed int64) []fw.Case {
 		d.Reader = readModes[rng.Intn(len(readModes))]
 		add(d)
 	}
+	cases = append(cases, c03AbandonCases(tier, rng.Fork())...)
 	return cases
 }
 
